@@ -102,7 +102,7 @@ Definition init (fs : fsys) : st := {| s_fs := fs; s_k := 0; s_trace := []; s_ou
    CPython: sys.exit(n) -> n; uncaught exception -> 1; uncaught KeyboardInterrupt -> dies of SIGINT; kill -> SIGKILL. *)
 Inductive status := Exit (n : nat) | SigInt | SigKill.
 Definition status_of {A} (rc : A -> nat) (r : result A) : status :=
-  match r with Done a => Exit (rc a) | Aborted KExn => Exit 1 | Aborted KIntr => SigInt | Aborted KKill => SigKill end.
+  match r with Done a => Exit (Nat.modulo (rc a) 256)      (* a process status has 8 bits *) | Aborted KExn => Exit 1 | Aborted KIntr => SigInt | Aborted KKill => SigKill end.
 
 (* ---------------------------------------------------------------- the code *)
 Inductive parsed (nbk : Type) := PNb (nb : nbk) | PNotJson | POther.
@@ -221,7 +221,10 @@ Section Code.
            end.
 
   Definition returncode (ds : list dec) : nat :=
-    match filter dconflict ds with [] => fact_rc_clean | _ :: _ => fact_rc_conflict end.
+    match fact_rc_mode with
+    | RcConst => match filter dconflict ds with [] => fact_rc_clean | _ :: _ => fact_rc_conflict end
+    | RcCount => length (filter dconflict ds)
+    end.
 
   (* nbmergeapp.main_merge(args) *)
   Definition main_merge (c : cfg strat) : prog nat :=
